@@ -6,7 +6,7 @@ use emmylua_parser::{
     LuaAstNode, LuaAstToken, LuaComment, LuaDocDescription, LuaDocDescriptionOwner, LuaDocFieldKey,
     LuaDocTag, LuaSyntaxId, LuaSyntaxToken, LuaTokenKind,
 };
-use std::collections::HashMap;
+use std::collections::BTreeMap;
 
 pub(crate) fn render_comment_via_ast(
     ctx: &FormatContext,
@@ -287,8 +287,8 @@ fn tag_line_indices(
     ctx: &FormatContext,
     c: &LuaComment,
     lines: &[Vec<DocIR>],
-) -> HashMap<String, Vec<usize>> {
-    let mut groups: HashMap<String, Vec<usize>> = HashMap::new();
+) -> BTreeMap<String, Vec<usize>> {
+    let mut groups: BTreeMap<String, Vec<usize>> = BTreeMap::new();
     let mut li = 0;
     for el in c.syntax().descendants_with_tokens() {
         match el {
